@@ -13,9 +13,6 @@ import (
 	"verif/sim/core"
 )
 
-var runners = map[string]func(c *core.Ctx) int{
-	"C06": checks.RunC06,
-}
 
 func usage() {
 	fmt.Fprintln(os.Stderr, "usage: check <ID> quick|thorough | check replay <file> | check selftest")
@@ -53,7 +50,7 @@ func main() {
 		if len(os.Args) < 3 || (os.Args[2] != "quick" && os.Args[2] != "thorough") {
 			usage()
 		}
-		run := runners[os.Args[1]]
+		run := checks.Runners[os.Args[1]]
 		if run == nil {
 			fmt.Fprintf(os.Stderr, "unknown property %s\n", os.Args[1])
 			os.Exit(2)
